@@ -149,7 +149,7 @@ class Textbook:
 
     CONSTRUCTS = ["row", "frac", "sqrt", "root", "sup", "sub", "subsup", "bigop", "lim", "over", "under", "underover",
                   "multiscripts", "matrix", "cases", "table", "fenced_row", "mfenced", "func", "binom", "enclose", "text_row",
-                  "neg", "factorial", "implied_times", "abs", "mixed", "integral", "semantics", "mstyle", "mpadded", "prime", "frac_bevelled", "seplist"]
+                  "neg", "factorial", "implied_times", "abs", "mixed", "integral", "semantics", "mstyle", "mpadded", "prime", "frac_bevelled", "seplist", "func_scripted"]
 
     def construct(self, depth):
         r = self.rng
@@ -306,6 +306,22 @@ class Textbook:
             arg = self.operand(d + 1)
         if r.random() < 0.5:
             return mrow(f, mo("⁡"), arg)
+        return mrow(f, arg)
+
+    def c_func_scripted(self, d):
+        """a function name with scripts: log_b x, sin^n x, log_b^n x (base and power are operands of their own)"""
+        r = self.rng
+        name = r.choice(["log", "log", "sin", "cos", "tan", "ln", "f"])
+        k = r.random()
+        if name == "log" and k < 0.4:
+            f = N("msub", [mi(name), self.operand(d + 1)])
+        elif name == "log" and k < 0.75:
+            f = N("msubsup", [mi(name), self.operand(d + 1), self.operand(d + 1)])
+        else:
+            f = N("msup", [mi(name), self.operand(d + 1)])
+        arg = mrow(mo("("), self.operand(d + 1), mo(")")) if r.random() < 0.4 else self.operand(d + 1)
+        if r.random() < 0.6:
+            return mrow(f, mo("\u2061"), arg)
         return mrow(f, arg)
 
     def c_binom(self, d):
